@@ -53,6 +53,7 @@ type Interrupt struct {
 	Nth    int    `json:"nth"`
 	Event  string `json:"event"` // trigger | sync
 	GiveUp bool   `json:"give_up,omitempty"`
+	Delay  int    `json:"delay,omitempty"` // the worker handles this many further messages before it picks up the interrupting event (its select chooses among ready channels)
 }
 
 type Commit struct {
@@ -110,7 +111,8 @@ type Node struct {
 	pendingTrig *interfaces.ElectionTrigger
 	pendingSync *Commit
 	// Interrupted: the main loop handled an event (cancelling contexts) during the worker step that is being judged right now
-	Interrupted bool
+	Interrupted  bool
+	pendingDelay int
 }
 
 func (n *Node) H() uint64 { return uint64(n.VN.State().Height()) }
@@ -366,6 +368,7 @@ func (w *World) interrupt(n *Node, kind string) {
 			n.VN.Gc()
 			if n.VN.MainElection(trig) {
 				n.pendingTrig = trig
+				n.pendingDelay = it.Delay
 				n.Interrupted = true
 				w.Obs.Interrupts++
 			}
@@ -381,6 +384,7 @@ func (w *World) interrupt(n *Node, kind string) {
 					n.VN.Gc()
 					if n.VN.MainUpdateState(c.Block, c.Proof) {
 						n.pendingSync = c
+						n.pendingDelay = it.Delay
 						n.Interrupted = true
 						w.Obs.Interrupts++
 					}
@@ -393,6 +397,10 @@ func (w *World) interrupt(n *Node, kind string) {
 
 // runPending: the worker half of an interrupting event, as its own step with its own monitors.
 func (w *World) runPending(n *Node) {
+	if (n.pendingTrig != nil || n.pendingSync != nil) && n.pendingDelay > 0 {
+		n.pendingDelay--
+		return
+	}
 	if trig := n.pendingTrig; trig != nil {
 		n.pendingTrig = nil
 		n.Inbox = append(n.Inbox, InEvent{Kind: "timeout"})
